@@ -31,6 +31,12 @@ CHECKS = {
  "C12": dict(engine="cprop", design="5/C12", technique="TLA+ CachedProp spec (slot/placeholder/lock protocol), TLC exhaustive over histories and interleavings + edge-cover replay + TLC trace validation against CPropObs",
    text="spec/CachedProp.tla models the descriptor, the placeholder's _await_impl (check, lock, re-check, getter, store), deletion with re-entry through the descriptor, failing getters and cancellation, one lock per placeholder; TLC checks one-getter-per-placeholder/instance, at-most-once, genuine values and lock-free-at-rest for sequential histories (1 task, <=5 operations, 2 instances, del) and for 2..4 concurrent awaiters with and without lock; every transition is replayed into the real cached_property (slot, task states, values, lock holders compared per step) and recorded events are validated by TLC against spec/CPropObs.tla (getter only runs when nothing is cached, value provenance, value-at-access semantics, nothing cached by failed/cancelled runs, locks free at rest).",
    note="Trusted: TLC, harness (instrumented lock type, one instance per placeholder). Without a lock type placeholders are compared modulo their identity."),
+ "C13": dict(engine="ctxmgr", design="5/C13", technique="TLA+ CtxMgr spec (enter/block/exit/classify machine over the full program grammar), TLC exhaustive case enumeration, every case run as a real async generator under asyncstdlib.contextmanager and contextlib.asynccontextmanager",
+   text="spec/CtxMgr.tla is the step machine of `async with` over the complete grammar of the quantifier (3 pre x 10 handlers x 3 post x 8 block outcomes) for two libraries; the 'stdlib' table is validated case by case against contextlib.asynccontextmanager, the 'asyncstdlib' table (identical except the GeneratorExit=aclose rule, 11 cases) is compared with the real contextmanager: value bound, how often the generator is driven, and the classified final outcome (same object / suppressed / RuntimeError kind / replaced). The space is finite and fully enumerated in both tiers.",
+   note="Trusted: TLC, the program generator and outcome classifier in harness/eng_ctx.py, CPython 3.12 contextlib as twin."),
+ "C16": dict(engine="groupby", design="5/C16", technique="TLA+ GroupBy spec (shared look-ahead state machine), TLC exhaustive over data x operation orders, edge-cover replay into asyncstdlib.groupby and itertools.groupby, TLC trace validation of random histories (GroupByTrace)",
+   text="spec/GroupBy.tla transcribes groupby_next/_grouper_next (look-ahead item, target key, live group) with pulls and end detections counted; TLC explores every order of advancing the groupby iterator and any group ever returned for all inputs within bounds and checks run/laziness invariants; every transition is replayed with three key flavours into asyncstdlib.groupby and itertools.groupby (keys, items by identity, stops, pull and key-call counts after every operation); longer random inputs/histories are validated by TLC against the same spec.",
+   note="Trusted: TLC, harness, CPython itertools.groupby as twin. Keys with reflexive equality; quick: <=5 items over 2 keys / <=4 over 3; thorough: <=6 over 2, <=5 over 3; traces up to 10 items over 4 keys."),
 }
 
 def main():
